@@ -185,6 +185,9 @@ package getoptions
 //@ spec func CompWord() string = ite(iterator.idx < len(args), args[iterator.idx], "")
 //@ spec func CompPartial() string = trimprefix(trimprefix(CompWord(), "-"), "-")
 //@ spec func OptEntry(n *programTree, k string) string = ite(n.ChildOptions[k].OptType != option.BoolType, "--" ++ k ++ "=", "--" ++ k)
+//@ spec func ValEntry(k string, e string) string = "--" ++ k ++ "=" ++ e
+//@ spec func AfterEq(c string) string = ite(contains(c, "="), substr(c, indexof(c, "=") + 1, len(c)), "")
+//@ spec func ValShown(c string) string = ite(completionMode == "bash", AfterEq(c), c)
 //@ spec func OptCandidate(n *programTree, k string) bool = (k in n.ChildOptions) && k != "-" && hasprefix(k, CompPartial())
 
 //@ func parseCLIArgs
@@ -235,6 +238,12 @@ package getoptions
 //@     invariant comp.opt.complete {C17}: !contains(CompPartial(), "=") ==> (forall q string :: (q in $seen) && OptCandidate(currentProgramNode, q) ==> inseq(OptEntry(currentProgramNode, q), completions))
 //@     invariant comp.opt.sound {C17}: !contains(CompPartial(), "=") ==> (forall i int :: 0 <= i && i < len(completions) ==>
 //@       (completions[i] == "-" && CompWord() == "-" && ("-" in currentProgramNode.ChildOptions)) || (exists q string :: (q in $seen) && OptCandidate(currentProgramNode, q) && completions[i] == OptEntry(currentProgramNode, q)))
+//@   loop "for _, e := range lastOpt.SuggestedValues"@1
+//@     step val.filter {C17}: (hasprefix(ValEntry(k, e), CompWord()) ==> isappend1(completions, old_iter(completions), ValShown(ValEntry(k, e))))
+//@       && (!hasprefix(ValEntry(k, e), CompWord()) ==> identical(completions, old_iter(completions)))
+//@   loop "for _, e := range lastOpt.SuggestedValuesFn(completionMode, strings.SplitN(iterator.Value(), \"=\", 2)[1])"
+//@     step val.fn.filter {C17}: (hasprefix(ValEntry(k, e), CompWord()) ==> isappend1(completions, old_iter(completions), ValShown(ValEntry(k, e))))
+//@       && (!hasprefix(ValEntry(k, e), CompWord()) ==> identical(completions, old_iter(completions)))
 //@   loop "for _, e := range lastOpt.SuggestedValues"@2
 //@     invariant comp.first: len(completions) >= 1 && len(completions) >= old_loop(len(completions))
 //@     invariant comp.kept {C17}: forall k int :: 0 <= k && k < old_loop(len(completions)) ==> completions[k] == old_loop(completions[k])
